@@ -17,8 +17,10 @@ Inductive rclass :=
 | Pass
 | Revoked (subject : string)
 | Unknown (subject : string)
-| Inconclusive.            (* validator error, no validator at all, or an answer that is not
+| Inconclusive             (* validator error, no validator at all, or an answer that is not
                               one result per certificate *)
+| PluginRejected.          (* only in the full model: the verification plugin that owns the revocation
+                              check (capability SIGNATURE_VERIFIER.REVOCATION_CHECK) answered "not successful" *)
 
 Record input := mk_input {
   i_action : action;       (* action of the revocation type in the level *)
@@ -120,7 +122,7 @@ Definition rres_eqb (a b : rres) : bool :=
 
 Definition rclass_eqb (a b : rclass) : bool :=
   match a, b with
-  | Pass, Pass | Inconclusive, Inconclusive => true
+  | Pass, Pass | Inconclusive, Inconclusive | PluginRejected, PluginRejected => true
   | Revoked s, Revoked t | Unknown s, Unknown t => String.eqb s t
   | _, _ => false
   end.
@@ -199,10 +201,10 @@ Definition run (cs : list case) : list (N * N * N) :=
      - the VALUE of the signing time handed to the validator (only zero / non-zero),
      - nil entries of the result slice,
      - the verifier whose two validator fields are both nil.
-   [xmodel] takes all of this as input and mirrors verifyRevocation statement by
+   [xmodel_native] takes all of this as input and mirrors verifyRevocation statement by
    statement, including checkRevocationResults. The aggregation itself is the same
    [final_result] / [classify]. The harness (vh-c05) emits [xcase]s; [model] is a proven
-   projection of [xmodel] (C05_Full.xmodel_refines_model).
+   projection of [xmodel_native] (C05_Full.xmodel_refines_model).
    [xmodel_v0] is the code BEFORE fix d78db00 (no checkRevocationResults): kept so that
    the defect stays stated (C05_pass_only_if_v0_refuted, C05_v0_panic_iff). *)
 
@@ -213,7 +215,16 @@ Record certres := mk_cr {
   cr_servers : list (option (N * bool)) }.  (* ServerResults: (RevocationMethod, Error != nil); None = a nil *ServerResult
                                       (only logged; dereferenced without a check before /repo fix a146158) *)
 
-Record xinput := mk_xinput {
+(* the verification plugin the signature names (critical extended attribute
+   io.cncf.notary.verificationPlugin), as processSignature sees it: installed, metadata valid, version
+   sufficient, and answering verify-signature with a well-formed response that reports the trusted-identity
+   check (if it has that capability) as successful - everything else about plugins is C02's model *)
+Inductive pcap := PcapTI | PcapRev | PcapOther.   (* SIGNATURE_VERIFIER.TRUSTED_IDENTITY / .REVOCATION_CHECK / any other capability *)
+Record xplugin := mk_xplugin {
+  xp_caps : list pcap;     (* Capabilities of its get-plugin-metadata response, in order *)
+  xp_rev_ok : bool }.      (* Success of the revocation-check entry of its verify-signature response *)
+
+Record xinput := mk_xinput_p {
   x_action : action;          (* action of the revocation type in the level *)
   x_sa : bool;                (* signing scheme is notary.x509.signingAuthority *)
   x_val : N;                  (* 1 context-aware validator supplied, 2 deprecated client, 3 both,
@@ -224,7 +235,11 @@ Record xinput := mk_xinput {
                                  For signingAuthority this is what SignerInfo.AuthenticSigningTime() yields *)
   x_chain : list string;      (* subjects of the signing chain, leaf first *)
   x_err : bool;               (* the validator returned a non-nil error ... *)
-  x_results : list (option certres) }. (* ... and this result slice (nil slice = []; None = nil entry) *)
+  x_results : list (option certres);  (* ... and this result slice (nil slice = []; None = nil entry) *)
+  x_plugin : option xplugin }.        (* None: the signature names no verification plugin *)
+
+(* the input without a verification plugin (every case before the plugin dimension was added) *)
+Definition mk_xinput a sa v st ch e rs : xinput := mk_xinput_p a sa v st ch e rs None.
 
 Record xcall := mk_xcall {
   xk_which : N;               (* 1 = ValidateContext, 2 = deprecated Validate *)
@@ -260,7 +275,7 @@ Definition xcalls (x : xinput) : list xcall :=
   | _ => [mk_xcall 1 (x_chain x) (xtime x)]
   end.
 
-Definition xmodel (x : xinput) : xobs :=
+Definition xmodel_native (x : xinput) : xobs :=
   match x_action x with
   | Skip => mk_xobs [] None false false          (* processSignature: the step is not entered *)
   | a =>
@@ -312,10 +327,10 @@ Definition xobs_eqb (a b : xobs) : bool :=
   && Bool.eqb (xo_rejected a) (xo_rejected b)
   && Bool.eqb (xo_panic a) (xo_panic b).
 
-(* ---------- the property oracle on the implementation's observations (does not call [xmodel]) ----------
+(* ---------- the property oracle on the implementation's observations (does not call [xmodel_native]) ----------
    Evaluated on EVERY case, also on answers outside the contract: there the validation must not
    pass (it is inconclusive), and Verify must never panic. *)
-Definition xresult_ok (x : xinput) (c : rclass) : bool :=
+Definition xresult_ok_native (x : xinput) (c : rclass) : bool :=
   if (x_val x =? 4)%N || x_err x || negb (complete x)
   then match c with Inconclusive => true | _ => false end
   else
@@ -326,7 +341,7 @@ Definition xresult_ok (x : xinput) (c : rclass) : bool :=
     else
       match c with Unknown s => named_ok (fun r => negb (is_ok r)) rs (x_chain x) s | _ => false end.
 
-Definition xcalls_ok (x : xinput) (cs : list xcall) : bool :=
+Definition xcalls_ok_native (x : xinput) (cs : list xcall) : bool :=
   match x_val x with
   | 0%N | 4%N => match cs with [] => true | _ => false end
   | v => match cs with
@@ -337,17 +352,80 @@ Definition xcalls_ok (x : xinput) (cs : list xcall) : bool :=
          end
   end.
 
-Definition xspec_ok (x : xinput) (o : xobs) : bool :=
+Definition xspec_ok_native (x : xinput) (o : xobs) : bool :=
   negb (xo_panic o) &&
   match x_action x with
   | Skip =>
       match xo_calls o, xo_result o with [], None => negb (xo_rejected o) | _, _ => false end
   | a =>
-      xcalls_ok x (xo_calls o)
+      xcalls_ok_native x (xo_calls o)
       && match xo_result o with
          | None => false
-         | Some c => xresult_ok x c && Bool.eqb (xo_rejected o) (enforce_fails a c)
+         | Some c => xresult_ok_native x c && Bool.eqb (xo_rejected o) (enforce_fails a c)
          end
+  end.
+
+(* ---------- who owns the revocation check: processSignature's routing ----------
+   [xmodel_native] is the step when notation performs the check itself. A signature that names a
+   verification plugin changes that (verifier.go, processSignature):
+     for _, capability := range metadata.Capabilities { keep TRUSTED_IDENTITY and REVOCATION_CHECK }
+     if len(pluginCapabilities) == 0 { return ErrorVerificationInconclusive }       -> [OwnerNobody]
+     if level[revocation] != skip && !Contains(pluginCapabilities, REVOCATION_CHECK) { v.verifyRevocation }
+     capabilitiesToVerify = pluginCapabilities minus REVOCATION_CHECK when the level skips revocation
+     if len(capabilitiesToVerify) > 0 { executePlugin; processPluginResponse }      -> [OwnerPlugin]
+   The same rule is VerifyCore.native_validations / process_caps of C02's model. *)
+Inductive rev_owner :=
+| OwnerNotation    (* no plugin named, or the plugin does not advertise the revocation capability *)
+| OwnerPlugin      (* the plugin advertises SIGNATURE_VERIFIER.REVOCATION_CHECK *)
+| OwnerNobody.     (* a plugin is named but has no verification capability at all: verification fails *)
+
+Definition pcap_is_rev (c : pcap) : bool := match c with PcapRev => true | _ => false end.
+Definition pcap_is_verifier (c : pcap) : bool := match c with PcapRev | PcapTI => true | PcapOther => false end.
+
+(* derived from the capability list, as the coordinator's `plugin_owns_revocation` *)
+Definition plugin_owns_revocation (x : xinput) : bool :=
+  match x_plugin x with Some p => existsb pcap_is_rev (xp_caps p) | None => false end.
+
+Definition owner (x : xinput) : rev_owner :=
+  match x_plugin x with
+  | None => OwnerNotation
+  | Some p => if negb (existsb pcap_is_verifier (xp_caps p)) then OwnerNobody
+              else if existsb pcap_is_rev (xp_caps p) then OwnerPlugin else OwnerNotation
+  end.
+
+Definition plugin_verdict (x : xinput) : rclass :=
+  match x_plugin x with Some p => if xp_rev_ok p then Pass else PluginRejected | None => Pass end.
+
+Definition xmodel (x : xinput) : xobs :=
+  match owner x with
+  | OwnerNobody => mk_xobs [] None true false        (* rejected before any validation, whatever the level *)
+  | OwnerPlugin =>
+      match x_action x with
+      | Skip => mk_xobs [] None false false           (* the capability is dropped: nobody checks revocation *)
+      | a => let res := plugin_verdict x in           (* the validator is NOT consulted; the plugin's verdict decides *)
+             mk_xobs [] (Some res) (enforce_fails a res) false
+      end
+  | OwnerNotation => xmodel_native x
+  end.
+
+(* the property oracle on observations (does not call [xmodel]): revocation is performed by notation
+   - validator consulted with the complete chain, answer aggregated - whenever the level does not skip it
+   and no plugin owns it; when a plugin owns it the validator is not consulted and the plugin's verdict is
+   the result; a plugin without verification capability fails the verification *)
+Definition xspec_ok (x : xinput) (o : xobs) : bool :=
+  match owner x with
+  | OwnerNotation => xspec_ok_native x o
+  | OwnerPlugin =>
+      negb (xo_panic o) && match xo_calls o with [] => true | _ => false end &&
+      match x_action x with
+      | Skip => match xo_result o with None => negb (xo_rejected o) | _ => false end
+      | a => match xo_result o with
+             | Some c => rclass_eqb c (plugin_verdict x) && Bool.eqb (xo_rejected o) (enforce_fails a c)
+             | None => false
+             end
+      end
+  | OwnerNobody =>
+      negb (xo_panic o) && xo_rejected o && match xo_calls o, xo_result o with [], None => true | _, _ => false end
   end.
 
 Record xcase := mk_xcase { xc_id : N; xc_in : xinput; xc_obs : xobs }.
